@@ -121,6 +121,22 @@ def run(tier):
         info = h[-1]["info"]
         add("slot:%d" % i, d1, "slot:%s.%s:%s:%s@%s" % (tuple(info["slot"]) + (info["pos"],)), text)
         ck.nontrivial(h[:-1])
+    # targeted: every string-valued slot with boundary string contents (escaped quotes at the start / middle / end,
+    # the other quote character, backslashes, leading / trailing blanks, empty)
+    specials = ['Pipe 5\\"', '\\"start', 'mid \\" dle', "it's", "'both ends'", "", " lead", "trail ", "back\\slash\\dir",
+                "semi;colon, comma", "100% sure", "tab\there", "new\nline", "x" * 300]
+    strslots = [h for h in sl if h[-1]["info"]["slot"][2] == "str" and h[-1]["info"]["pos"] == "alone"]
+    for k, sp in enumerate(specials):
+        concs = concretise.Concretiser(seed, strings=[sp])
+        for i, h in enumerate(strslots):
+            root = docs.root_type(h)
+            text, _ = concretise.assemble(concs.tokens(concretise.with_root(h, root)))
+            try:
+                d1 = loads(text)
+            except Exception:  # noqa: BLE001
+                continue
+            info = h[-1]["info"]
+            add("special:%d:%d" % (k, i), d1, "slot:%s.%s:str:special%d@alone" % (info["slot"][0], info["slot"][1], k), text)
     # walks
     n = 400 if quick else 8000
     hs = docs.walks(n, max_steps=30 if quick else 60, seed=seed + 11, tag="c01walks", ck=ck)
